@@ -208,11 +208,20 @@ def check(cx):
     r6 = cx.rule('R3.6', 'CAP suspend/resume and authenticate() callers', floor=6, kind='wiring')
     wc = cx.walk(cx.fn('process_cap'), args=[SELF, CONN, ('param', 'subcommand'), ('param', 'caps'), ('param', 'version')])
     capw = {}
+    capcond = {}
     for e in wc.events:
         if e.kind == 'assign' and e.data['lhs'] == ('field', CONN, 'caps_negotation'):
             for c in conjuncts(e.pc):
                 if c[0] == 'a' and c[1][0] == 'is' and c[1][1] == ('param', 'subcommand'):
                     capw.setdefault(c[1][2], []).append(sym.as_formula(e.data['rhs']))
+                    # the flag must change whenever the subcommand is given: nothing but the subcommand itself in the condition
+                    rest = [a for a in atoms(e.pc) if not (a[0] == 'is' and a[1] == ('param', 'subcommand'))]
+                    if rest:
+                        capcond[c[1][2]] = rest
+    for sub, rest in sorted(capcond.items()):
+        r6.violation('process_cap|%s|conditional' % sub, 'CAP %s changes the negotiation flag only under a further condition (%s): a request '
+                     'that is answered otherwise does not suspend / resume registration' % (sub, ', '.join(show_term(a)[:40] for a in rest[:2])),
+                     loc=cx.fn('process_cap'))
     for sub, want in (('LS', T), ('REQ', T), ('END', F)):
         r6.instance('CAP %s sets caps_negotation=%s' % (sub, want == T))
         if capw.get(sub) != [want]:
